@@ -45,6 +45,8 @@ FIXMAP = {
  'a cancelled evaluation is reported': ['C14'],
  'do not propagate matchers across a binary operator with an empty on()': ['C09'],
  'merge-selects keeps further matchers on the metric name': ['C09'],
+ 'recover panics of queries that fall back': ['C13'],
+ 'Cancel and Close of fallback queries': ['C20', 'C14'],
 }
 log = subprocess.run(['git', '-C', '/repo', 'log', '--format=%h %s', '--reverse'], capture_output=True, text=True).stdout.strip().split('\n')
 p = '/verif/known_findings.json'
